@@ -255,6 +255,19 @@ impl RecordDecoder {
         let offsets = &self.offsets[..self.offsets_len];
         let num_rows = self.num_rows;
 
+        // The fields are sliced out of `data` at `offsets`: every field has to be valid
+        // UTF-8 by itself. Invalid bytes at the end of one field and at the start of
+        // the next can combine into a valid sequence of the concatenated data
+        if let Some(idx) = offsets.iter().position(|x| !data.is_char_boundary(*x)) {
+            // `offsets[idx]` is the end of field `idx - 1`
+            let field = (idx - 1) % self.num_columns + 1;
+            let line_offset = self.line_number - self.num_rows;
+            let line = line_offset + (idx - 1) / self.num_columns;
+            return Err(ArrowError::CsvError(format!(
+                "Encountered invalid UTF-8 data for line {line} and field {field}"
+            )));
+        }
+
         // Reset state
         // `truncated_row_count` is deliberately left alone so that it accumulates
         // across the batches produced by a single decoder
